@@ -740,9 +740,22 @@ func doReplay(path string) {
 	sc.Buffer(make([]byte, 1<<20), 1<<26)
 	out := bufio.NewWriter(os.Stdout)
 	defer out.Flush()
+	rw := &rworld{dir: tmp}
+	defer rw.close()
+	rankMode := false
 	for sc.Scan() {
 		line := strings.TrimSpace(sc.Text())
 		if line == "" || strings.HasPrefix(line, "#") {
+			continue
+		}
+		if strings.HasPrefix(line, "rschema ") {
+			rankMode = true
+		} else if strings.HasPrefix(line, "schema ") {
+			rankMode = false
+		}
+		if rankMode {
+			fmt.Fprintln(out, rw.replayLine(line))
+			out.Flush()
 			continue
 		}
 		if strings.HasPrefix(line, "searchx ") {
@@ -793,6 +806,7 @@ func main() {
 	batches := flag.Int("batches", 14, "write batches per history")
 	nsearch := flag.Int("searches", 14, "queries after each batch")
 	nx := flag.Int("searchx", 0, "compose mode: full SearchPoints requests (select, sort, offset, limit) after each batch, written with the whole history to <out>/compose/")
+	nrank := flag.Int("rank", 0, "rank mode: this many extra histories on shards with a filter, a vectorFlat and a text index (rank.go), written to <out>/rank/")
 	flag.Parse()
 	zerolog.SetGlobalLevel(zerolog.Disabled)
 	if *replay != "" {
@@ -814,6 +828,9 @@ func main() {
 	}
 	g.w.Close()
 	side := g.sideEmptyString()
+	if *nrank > 0 {
+		runRank(*seed, *dir, tmp, *nrank, *batches, 4, o)
+	}
 	if g.co != nil {
 		g.co.Close(map[string]any{"rule": "distinct op lines that are write batches, non-empty bucket dumps, or searches / full requests with a non-empty answer"})
 	}
